@@ -502,12 +502,17 @@ func (ab *rulesPair) equalize(a, b *panRule, vsysPath string) []string {
 			return false
 		}
 		insert := ""
+		// Collect delete commands locally. They must only be added to
+		// result, if incremental change succeeds. Otherwise caller
+		// would leave la unchanged or would replace it completely,
+		// but members would already have been deleted on device.
+		var delCmds []string
 		for _, r := range s.Ranges {
 			if r.IsDelete() {
 				for _, adr := range la[r.LowA:r.HighA] {
 					text := textAttr(adr)
 					cmd := "action=delete&" + cmd0 + path + "/member" + text
-					result = append(result, cmd)
+					delCmds = append(delCmds, cmd)
 				}
 			} else if r.IsInsert() {
 				object := &panMembers{Member: lb[r.LowB:r.HighB]}
@@ -527,6 +532,7 @@ func (ab *rulesPair) equalize(a, b *panRule, vsysPath string) []string {
 				}
 			}
 		}
+		result = append(result, delCmds...)
 		if insert != "" {
 			elem := "&element=" + insert
 			cmd := "action=set&" + cmd0 + path + elem
